@@ -124,7 +124,7 @@ def run_one_cut(res, rng, prog, S, k, transport, variant, label):
         return
     logs = {c: {"recv": [], "wait": [], "cb": []} for c in prog["cids"]}
     threads = []
-    END = ("__end__",)
+    END = rng.choice((("__end__",), None, 0, ""))  # any object may serve as endmarker, None and falsy ones included
 
     def receiver(c, ix):
         ch = chans[c]
